@@ -240,6 +240,8 @@ def enc(s, v, env=None, bitmode=False):
         return list(v)
     if k == "bytesctx":
         n = env[s[1]] if s[2] is None else env[s[1]] % (s[2] + 1)
+        if n < 0:
+            raise Reject("short", "negative length")
         if len(v) != n:
             raise Reject("short", "wrong length")
         return list(v)
@@ -356,7 +358,9 @@ def enc(s, v, env=None, bitmode=False):
             out += enc(s[2], e, env, bitmode)
         return out
     if k == "arrayctx":
-        n = env[s[1]] % (s[2] + 1)
+        n = env[s[1]] if s[2] is None else env[s[1]] % (s[2] + 1)
+        if n < 0:
+            raise Reject("count")
         vv = list(v)
         if len(vv) != n:
             raise Reject("count")
@@ -654,7 +658,9 @@ def dec(s, buf, pos, env=None, bitmode=False):
             out.append(v)
         return out, pos
     if k == "arrayctx":
-        n = env[s[1]] % (s[2] + 1)
+        n = env[s[1]] if s[2] is None else env[s[1]] % (s[2] + 1)
+        if n < 0:
+            raise Reject("count")
         out = []
         i = 0
         while i < n:
